@@ -214,6 +214,9 @@ func (vm *VM) globalAddr(g *ssa.Global) *Value {
 		if vm.needsInit(g) {
 			cell = Poison{why: "global " + g.String() + " of uninitialised package"}
 		}
+		if v, ok := knownGlobals[g.String()]; ok {
+			cell = v
+		}
 	} else {
 		cell = zeroLenient(t)
 	}
@@ -221,6 +224,11 @@ func (vm *VM) globalAddr(g *ssa.Global) *Value {
 	*p = cell
 	vm.globals[g] = p
 	return p
+}
+
+// values of a few std-lib globals whose package initialiser is not run
+var knownGlobals = map[string]Value{
+	"net/http.use121": BoolV{C: false},
 }
 
 func zeroLenient(t types.Type) (v Value) {
